@@ -85,7 +85,7 @@ STAGES = {
             S("concurrent", "^TestC05$", quick=150, thorough=2500, shards=(6, 16), timeout=("15m", "90m")),
             S("concurrent-race", "^TestC05$", quick=40, thorough=800, shards=(4, 16), race=True, timeout=("15m", "90m"))],
     "C06": [S("codes", "^TestC06$", shards=(8, 16)),
-            S("two-closers", "^TestC06TwoClosers$|^TestC06CloseBesideReader$"),
+            S("two-closers", "^TestC06TwoClosers$|^TestC06CloseBesideReader$|^TestC06CloseQueued$"),
             S("mixed", "^TestC06Mixed$", quick=3000, thorough=200000, shards=(2, 16))],
     "C19": [S("reads", "^TestC19$", quick=2500, thorough=120000, shards=(3, 16)),
             S("writes", "^TestC19Write$", quick=800, thorough=40000, shards=(1, 8)),
